@@ -316,6 +316,75 @@ Proof.
   - destruct (General _ Hmode Hrun) as (G1 & G2 & G3 & G4 & G5 & G6). repeat (split; [assumption|]). intros Hm _. exact (G6 Hm).
 Qed.
 
+(* ---------------- totality: the unguarded division by connected["priority"] ---------------- *)
+(* With strictly positive preferences the allocation never divides by zero. *)
+Definition prefs_pos (st : star) : Prop := Forall (fun x => 0 < sa_pref S x) st.
+Definition conn_pos (c : conn) : Prop := 0 < c_avail c -> 0 < c_prio c.
+
+Lemma sumq_avails_cons push ot x st :
+  sumq (avails S P push ot (x :: st)) = avail1 S P push ot x + sumq (avails S P push ot st).
+Proof. reflexivity. Qed.
+Lemma sumq_allocs_cons push ot x st :
+  sumq (allocs S P push ot (x :: st)) = Qred (avail1 S P push ot x * sa_pref S x) + sumq (allocs S P push ot st).
+Proof. reflexivity. Qed.
+Lemma allocs_pos push ot st : prefs_pos st -> 0 < sumq (avails S P push ot st) -> 0 < sumq (allocs S P push ot st).
+Proof.
+  induction st as [|x st IH]; intros Hp Hs; [cbn in Hs; lra|].
+  inversion Hp as [|x0 l0 Hx Hl]; subst. rewrite sumq_avails_cons in Hs. rewrite sumq_allocs_cons, Qred_correct.
+  pose proof (avail1_nonneg push ot x) as Ha.
+  assert (Hrest : 0 <= sumq (allocs S P push ot st)).
+  { apply sumq_nonneg. unfold allocs. apply Forall_forall. intros w Hw. apply in_map_iff in Hw. destruct Hw as (y & E & Hin). subst.
+    rewrite Qred_correct. pose proof (avail1_nonneg push ot y) as Hy. pose proof (proj1 (Forall_forall _ _) Hl y Hin) as Hpy.
+    cbn beta in Hpy. nra. }
+  destruct (Qlt_le_dec 0 (avail1 S P push ot x)) as [Hpos|Hz].
+  - assert (0 < avail1 S P push ot x * sa_pref S x) by nra. lra.
+  - assert (Hz0 : avail1 S P push ot x == 0) by lra.
+    assert (Hs' : 0 < sumq (avails S P push ot st)) by lra.
+    specialize (IH Hl Hs'). nra.
+Qed.
+Lemma get_connected_pos push ot st : prefs_pos st -> conn_pos (get_connected S P push ot st).
+Proof.
+  intros Hp. unfold conn_pos, get_connected; cbn [c_avail c_prio]. rewrite !Qred_correct. apply allocs_pos; exact Hp.
+Qed.
+Lemma push_round_prefs ot st al amount prio np : prefs_pos st ->
+  prefs_pos (fst (push_round S P ot st al amount prio np)).
+Proof.
+  revert al np. induction st as [|x st IH]; intros al np Hp; [destruct al; exact Hp|].
+  destruct al as [|w al]; [exact Hp|]. inversion Hp as [|x0 l0 Hx Hl]; subst. cbn [push_round].
+  destruct (selected S ot x).
+  - destruct (a_send_push S P (sa_a S x) (sa_s S x) _ false) as [[a' s'] reply].
+    specialize (IH al (vsub np (vsub (vchange np (amount * w / prio)) reply)) Hl).
+    destruct (push_round S P ot st al amount prio _) as [r' np'']. cbn [fst] in *. constructor; [exact Hx | exact IH].
+  - specialize (IH al np Hl). destruct (push_round S P ot st al amount prio np) as [r' np']. cbn [fst] in *.
+    constructor; [exact Hx | exact IH].
+Qed.
+Theorem push_loop_total ot : forall fuel st np c iter, prefs_pos st -> conn_pos c ->
+  push_loop S P fuel ot st np c iter <> None.
+Proof.
+  induction fuel as [|fuel IH]; intros st np c iter Hp Hc; cbn [push_loop]; [discriminate|].
+  destruct (Qltb eps (vol np) && Qltb eps (c_avail c)) eqn:Econd; [|discriminate].
+  apply andb_true_iff in Econd. destruct Econd as [_ E2]. apply Qltb_true in E2. pose proof eps_pos.
+  destruct (Qeq_bool (c_prio c) 0) eqn:Ep.
+  - apply Qeq_bool_iff in Ep. pose proof (Hc ltac:(lra)). lra.
+  - pose proof (push_round_prefs ot st (c_alloc c) (Qmin (c_avail c) (vol np)) (c_prio c) np Hp) as Hp1.
+    destruct (push_round S P ot st (c_alloc c) _ (c_prio c) np) as [st1 np1]. cbn [fst] in Hp1.
+    apply IH; [exact Hp1 | apply get_connected_pos; exact Hp1].
+Qed.
+Theorem push_distributed_total maxiter ot st v : prefs_pos st -> push_distributed S P maxiter ot st v <> None.
+Proof.
+  intros Hp. unfold push_distributed.
+  assert (G : forall c, conn_pos c -> match push_loop S P maxiter ot st v c 0 with
+                                      | Some (st', np, iter) => Some (st', np, Nat.eqb iter maxiter)
+                                      | None => None end <> None).
+  { intros c Hc. pose proof (push_loop_total ot maxiter st v c 0%nat Hp Hc) as H.
+    destruct (push_loop S P maxiter ot st v c 0) as [[[a b] d]|]; [discriminate | congruence]. }
+  assert (Hmode : conn_pos (let c0 := get_connected S P true ot st in
+                            if Qltb (c_avail c0) (vol v) then mkConn (c_avail c0) (c_avail c0) (c_cap c0) (c_cap c0) else c0)).
+  { cbn zeta. destruct (Qltb _ _); [unfold conn_pos; cbn [c_avail c_prio]; intros H; exact H | apply get_connected_pos; exact Hp]. }
+  destruct st as [|x [|y r]]; [apply G; exact Hmode | | apply G; exact Hmode].
+  destruct (selected S ot x); [|discriminate]. destruct (a_send_push S P (sa_a S x) (sa_s S x) v false) as [[a' s'] reply]. discriminate.
+Qed.
+
 (* ---------------- pull: never more than asked, pieces add up ---------------- *)
 Fixpoint pshares (ot : option (list nat)) (st : star) (al : list Q) (deficit prio : Q) : Q :=
   match st, al with
